@@ -90,8 +90,21 @@ def main(tier, seed):
                 continue
             fpath = ftxt
             if fmt == "csv":
+                # the .csv file is written by the library's own routine too (the property is about files it writes)
                 fpath = os.path.join(tmp, "dist.csv")
-                np.savetxt(fpath, D, delimiter=",")
+                g.pre_compute_distance(X, fpath, metric)
+                try:
+                    probe = SupervisedOPF(distance=metric, pre_computed_distance=fpath)
+                    Dc = np.asarray(probe.pre_distances)
+                    bad = None if (Dc.shape == D.shape and (Dc.tobytes() == D.tobytes() or ((np.isnan(Dc) == np.isnan(D)).all() and (Dc[~np.isnan(D)] == D[~np.isnan(D)]).all()))) else "the matrix read back from the .csv differs from the one read back from the .txt"
+                except Exception as ex:
+                    bad = "a model cannot be built on it: %r" % (ex,)
+                if bad:
+                    nviol += 1
+                    if nviol <= 3:
+                        rep.violation("distance file written by pre_compute_distance(data, 'dist.csv', %r): %s" % (metric, bad[:300]),
+                                      dict(metric=metric, format="csv", X=X.tolist(), first_line_of_file=open(fpath).readline()[:200]), key="precompute_file:csv")
+                    continue
             pct = rng.choice([0.5, 0.6, 0.7])
             Xtr, Xte, Ytr, Yte, Itr, Ite = s.split_with_index(X, Y, pct, random_state=rng.randint(0, 10 ** 6))
             if len(set(Ytr.tolist())) < 2:
